@@ -18,7 +18,7 @@ func init() {
 			"D4 encoding only appends — every store to the caller's buffer in the encoding primitives and in every Encode method is `*b = append(*b, …)`; EncodeFloat64LE writes only into the 8 bytes it has just appended; the receiver's observable write set is empty (C14-D1 obligation re-evaluated for every Encode). "+
 			"D5 omitIndexMapping: true → no mapping block, false → exactly one; the optional blocks (zero weight, exact count, exact sum) are left out only on paths that know their value to be 0. "+
 			"D6 decoding constructors — DecodeDDSketch and its exact-statistics sibling build a sketch with the caller's mapping argument (the 'supplied by the caller' form), two separate stores from the caller's provider and no weight, decode the caller's bytes into exactly that sketch and return it with the decoder's error. "+
-			"SHARED (obligations of other properties that decide clauses this property states too, re-evaluated here under their home rule ids): C14-D5 for every function with Encode or Decode in its name (no package-level state between calls). C08-D4 (item loops of the bin decoders read exactly the announced number of items). C10-D1/D5 (statistics blocks of the exact variant: guards of the writer, arms and final guard of the reader). C04-D9 for the paginated decoder (elements of a page obtained without creating it are touched only after its length showed it non-empty: a store reused after Clear keeps emptied slots). C19-D1 binary part (the embedded mapping block is written from the gamma and offset fields and read back into the same kind). C19-D2/D3 (Equals of the mappings — a stream that embeds the receiver's own mapping must be accepted, so Equals must hold for a mapping and itself: symmetric tolerance table over absolute values). "+
+			"SHARED (obligations of other properties that decide clauses this property states too, re-evaluated here under their home rule ids): C14-D5 for every function with Encode or Decode in its name (no package-level state between calls). C04-D1/D2/D3/D5/D6/D9 and C05-D8 (the add side of every store: a decoded bin is counted at its index). C08-D4 (item loops of the bin decoders read exactly the announced number of items). C10-D1/D5 (statistics blocks of the exact variant: guards of the writer, arms and final guard of the reader). C04-D9 for the paginated decoder (elements of a page obtained without creating it are touched only after its length showed it non-empty: a store reused after Clear keeps emptied slots). C19-D1 binary part (the embedded mapping block is written from the gamma and offset fields and read back into the same kind). C19-D2/D3 (Equals of the mappings — a stream that embeds the receiver's own mapping must be accepted, so Equals must hold for a mapping and itself: symmetric tolerance table over absolute values). "+
 			"NOT DECIDED: bit-exact equality of weights after the round trip, which layout is chosen for given data, clamping into bounded target stores.",
 		"one obligation per writer block / reader arm / delta site / state write in a decoder / buffer store in an encoder",
 		false, runC06)
@@ -45,6 +45,8 @@ func runC06(c *Ctx) {
 	// the statistics blocks of the exact variant round-trip: written only when they hold a real value, read back
 	// into the accumulator of their flag
 	c.shared(func() { c10EncodeGuards(c, a); c10Decode(c, a) }, func(o *Obligation) bool { return true })
+	// decoded bins are added through the receiver's entry points: the add side of every store kind
+	c.shared(func() { c04AddPaths(c) }, func(o *Obligation) bool { return true })
 	// encoders and decoders keep nothing in package-level variables between calls
 	c.shared(func() { c14NoPackageState(c, "C14-D5") }, keyMentions("Encode", "Decode"))
 	// decoding into a reused (cleared) paginated store: emptied page slots are recognised by their length
